@@ -131,6 +131,8 @@ impl InputList {
 
     pub fn from_reader(reader: &mut dyn BufRead) -> Result<Self> {
         let mut reader = Reader::from_reader(reader);
+        // "--" inside a comment is not well-formed XML and would be copied to the output
+        reader.config_mut().check_comments = true;
 
         let mut events = Vec::new();
         let mut buf = Vec::new();
@@ -467,6 +469,15 @@ impl OutputList {
                     .write_event(text_event)
                     .map_err(SvgdxError::from_err)?;
             }
+            if let OutputEvent::CData(ref content) = event {
+                // "]]>" cannot occur inside a CDATA section: split into several sections
+                for cdata in BytesCData::escaped(content) {
+                    writer
+                        .write_event(Event::CData(cdata))
+                        .map_err(SvgdxError::from_err)?;
+                }
+                continue;
+            }
             writer.write_event(event).map_err(SvgdxError::from_err)?;
         }
         // re-add any trailing text
@@ -515,12 +526,27 @@ impl IntoIterator for OutputList {
     }
 }
 
+/// "--" may not occur inside an XML comment (nor may it end with '-'): separate the dashes.
+fn comment_safe(s: &str) -> String {
+    let mut out = String::with_capacity(s.len());
+    for ch in s.chars() {
+        if ch == '-' && out.ends_with('-') {
+            out.push(' ');
+        }
+        out.push(ch);
+    }
+    if out.ends_with('-') {
+        out.push(' ');
+    }
+    out
+}
+
 impl<'a> From<OutputEvent> for Event<'a> {
     fn from(svg_ev: OutputEvent) -> Event<'a> {
         match svg_ev {
             OutputEvent::Empty(e) => Event::Empty(e.into_bytesstart()),
             OutputEvent::Start(e) => Event::Start(e.into_bytesstart()),
-            OutputEvent::Comment(t) => Event::Comment(BytesText::from_escaped(t)),
+            OutputEvent::Comment(t) => Event::Comment(BytesText::from_escaped(comment_safe(&t))),
             OutputEvent::Text(t) => Event::Text(BytesText::from_escaped(t)),
             OutputEvent::CData(t) => Event::CData(BytesCData::new(t)),
             OutputEvent::End(name) => Event::End(BytesEnd::new(name)),
